@@ -263,6 +263,7 @@ def stepOp (cfg : Cfg) (o : Op) (s : State) : State × Option Err :=
 /-- `self._save_context` -/
 structure Saved where
   defaultWs : String
+  builtinWs : List (List Char) -- [(expr, set(expr.whiteChars)) for expr in _builtin_exprs] (objects by position)
   kwChars : String
   litCls : Nat
   verbose : Bool
@@ -289,9 +290,10 @@ def saveRaises (s : State) : Bool := s.packratEnabled && s.cache.kind == .null
 /-- the names `save()` records for `__compat__` (testing.py:77-79) -/
 def compatSavedNames : List String := ["collect_all_And_tokens"]
 
-/-- testing.py:50-81 -/
+/-- testing.py:50-84 -/
 def save (cfg : Cfg) (s : State) : Saved :=
   { defaultWs := s.defaultWs
+    builtinWs := s.builtins.map (·.ws)
     kwChars := s.kwChars
     litCls := s.litCls
     verbose := s.verbose
@@ -316,11 +318,22 @@ def restoreCompat : Flags → Flags → Flags
   | [], fl => fl
   | (n, v) :: rest, fl => restoreCompat rest (setFlag n v fl)
 
-/-- testing.py:83-118, statement by statement; on an exception the partially restored state and
+/-- `for expr, white_chars in saved["builtin_whitespace"]: expr.whiteChars = white_chars`
+    (the saved pairs hold the built-in *objects*; the list of built-ins never changes, so by position) -/
+def assignWs : List Expr → List (List Char) → List Expr
+  | e :: es, w :: ws => { e with ws := w } :: assignWs es ws
+  | es, _ => es
+
+/-- testing.py:88-97: undo a changed default, then put every built-in's own set back -/
+def restoreWs (sv : Saved) (t : State) : State :=
+  let t := if t.defaultWs != sv.defaultWs then setDefaultWs sv.defaultWs t else t
+  { t with builtins := assignWs t.builtins sv.builtinWs }
+
+/-- testing.py:86-124, statement by statement; on an exception the partially restored state and
     the exception are returned -/
 def restore (cfg : Cfg) (sv : Saved) (t : State) : State × Option Err :=
-  -- :85-91
-  let t := if t.defaultWs != sv.defaultWs then setDefaultWs sv.defaultWs t else t
+  -- :88-97
+  let t := restoreWs sv t
   -- :93
   let t := { t with verbose := sv.verbose }
   -- :95
